@@ -267,7 +267,8 @@ func (r *Resolver) ResolveUnionEdges(ctx context.Context, req *Request, edges []
 	for _, evaluation := range evaluations {
 		pool.Go(func() error {
 			res, err := r.ResolveEdge(ctx, req, evaluation.edge, visited)
-			if err == nil && ctx.Err() == nil {
+			// a negative result obtained after skipping visited sub-problems depends on the path taken to get here
+			if err == nil && ctx.Err() == nil && (res.GetAllowed() || !hasPruned(visited)) {
 				entry := &ResponseCacheEntry{Res: res, LastModified: time.Now()}
 				r.cache.Set(evaluation.id, entry, r.cacheTTL)
 			}
@@ -563,7 +564,8 @@ func (r *Resolver) ResolveRecursive(ctx context.Context, req *Request, edge *aut
 			res, err = nil, ErrPanicRequest
 		}
 
-		if err == nil && ctx.Err() == nil {
+		// as in ResolveUnionEdges: a negative result obtained after skipping visited sub-problems is not cached
+		if err == nil && ctx.Err() == nil && (res.GetAllowed() || !hasPruned(visited)) {
 			entry := &ResponseCacheEntry{Res: res, LastModified: time.Now()}
 			r.cache.Set(cacheKey, entry, r.cacheTTL)
 		}
